@@ -18,9 +18,9 @@ mv /tmp/seeded_demo_$name.rs tests/seeded_demo.rs
 echo "== demo with the change =="
 cargo test --offline --test seeded_demo 2>&1 | grep -E "^test |^test result" | head -20
 echo "== demo without the change =="
-git stash push -q -- src
+git apply -R "$out/patch.diff"
 cargo test --offline --test seeded_demo 2>&1 | grep -E "^test |^test result" | head -20
-git stash pop -q
+git apply "$out/patch.diff"
 git status --short | head -5
 } > "$out/confirm.log" 2>&1
 cat "$out/confirm.log"
